@@ -410,6 +410,20 @@ pub fn api_ordering(rng: &mut Rng, names: &[String]) -> Vec<NamedSymbol> {
 }
 
 /// one `…|eval|gen|real|result` line
+pub fn has_fix(g: &GF) -> bool {
+    match g {
+        GF::False | GF::True | GF::Var(_) => false,
+        GF::Not(a) | GF::Quant(_, _, a) => has_fix(a),
+        GF::CntC(_, fs, _) => fs.iter().any(has_fix),
+        GF::CntV(_, a, b) => a.iter().any(has_fix) || b.iter().any(has_fix),
+        GF::Fix(..) => true,
+        GF::Ite(a, b, c) => has_fix(a) || has_fix(b) || has_fix(c),
+        GF::Bin(_, a, b) => has_fix(a) || has_fix(b),
+    }
+}
+
+static EVAL_COUNT: std::sync::atomic::AtomicUsize = std::sync::atomic::AtomicUsize::new(0);
+
 pub fn eval_line(tag: &str, gf: &GF, text: &str, st: &mut Stats) -> String { eval_line_ord(tag, gf, text, None, st) }
 
 /// … under an ordering given through the API
@@ -425,10 +439,17 @@ pub fn eval_line_ord(tag: &str, gf: &GF, text: &str, ordering: Option<Vec<NamedS
         Parsed::Ok(pf) => {
             let ids = id_table(&pf);
             crate::watchdog::enter_div(text, format!("{}|eval|{}|{}|DIVERGE", tag, ser_gf(gf, &ids), ser_real(&pf.bdd)));
-            let res = match eval_guarded(&pf) {
+            let mut res = match eval_guarded(&pf) {
                 Ok(b) => { st.hit(if b.is_const() { "result.const" } else { "result.choice" }); show_ns(&b) }
                 Err(_) => { st.hit("eval.panic"); "PANIC".to_string() }
             };
+            // every formula with a fixed point, and every third of the others, is evaluated a second time by the same ParsedFormula (its environment now holds every
+            // node of the first evaluation), and it is the second answer that is judged
+            let nth = EVAL_COUNT.fetch_add(1, std::sync::atomic::Ordering::Relaxed);
+            if (nth % 3 == 2 || has_fix(gf)) && res != "PANIC" {
+                st.hit("evaluated.twice");
+                res = match eval_guarded(&pf) { Ok(b) => show_ns(&b), Err(_) => "PANIC".to_string() };
+            }
             format!("{}|eval|{}|{}|{}", tag, ser_gf(gf, &ids), ser_real(&pf.bdd), res)
         }
     };
@@ -873,6 +894,15 @@ pub fn c09(out: &mut dyn Write, tier: &str, rng: &mut Rng, st: &mut Stats) {
             let mut g = Gen { rng, names: names.clone(), allow_fix: i % 2 == 0, big_consts: false, max_list: 3 };
             g.gen(depth, &Pol::new())
         };
+        // every tenth case: 62 to 66 further variables in front (a conjunction), so that the names of the formula
+        // proper are numbered around and beyond 64 under the default numbering
+        let gf = if i % 10 == 7 {
+            let extra = 62 + rng.below(5) as usize;
+            let mut g = gf;
+            for j in (0..extra).rev() { g = GF::Bin(0, Box::new(GF::Var(format!("p{}", j))), Box::new(g)); }
+            st.hit("prefix.many-variables");
+            g
+        } else { gf };
         count_kinds(&gf, st);
         let text = Printer { rng, noise: false }.print(&gf);
         // every third case: an explicit ordering (API form, distinct ids) that may mention
@@ -888,6 +918,7 @@ pub fn c09(out: &mut dyn Write, tier: &str, rng: &mut Rng, st: &mut Stats) {
                 let idx = rng.below(pool.len() as u64) as usize;
                 let nm = pool.remove(idx);
                 next_id += rng.below(3) as usize; // gaps
+                if i % 12 == 5 { next_id += 30 + rng.below(70) as usize; } // large gaps: ids beyond 64, 128
                 ord.push(NamedSymbol { name: Rc::new(nm), id: next_id });
                 next_id += 1;
             }
